@@ -232,7 +232,10 @@ def handleLine (st : State) (line : String) : State × String :=
       (st, verdict (m1 == o1 && m2 == o2) (hexField m1 ++ "/" ++ hexField m2)
         (if bad then ["C20"] else [])
         (if bad && unstable then ["C20:url-reprint-unstable"]
-         else if bad && reordered then ["C20:forced-attr-order"] else []))
+         else if bad && reordered then ["C20:forced-attr-order"]
+         -- the two passes agree once every `!important` is deleted: each pass drops the priority the
+         -- declaration parser recognised, and a matcher that accepts `!important` as text let a further one through
+         else if bad && dropImportant o1 == dropImportant o2 then ["C20:important-dropped"] else []))
     | _, _, _, _ => (st, "bad-idem")
   | ["entry", pid, inp, oS, oB, oR, oW, oW2, okf, _mode] =>
     match getPolicy st pid, unhexField inp, unhexField oS, unhexField oB, unhexField oR, unhexField oW, unhexField oW2 with
@@ -453,7 +456,10 @@ def handleLine (st : State) (line : String) : State × String :=
         -- accepted ⇒ of the documented form; documented examples must be accepted
         let bad := (impl == "1" && !doc) || (kindw == "matex" && impl != "1")
         let fold := (decodeRunes v).any fun r => r == 0x17F || r == 0x212A
-        (st, verdict (m == impl) m (if bad then ["C19"] else [])
+        -- a documented example that is refused is also a valid value of the UGC vocabulary that UGCPolicy
+        -- would drop: the converse clause of C04
+        let refusedExample := kindw == "matex" && impl != "1"
+        (st, verdict (m == impl) m ((if bad then ["C19"] else []) ++ (if refusedExample then ["C04"] else []))
           (if bad && fold then ["C19:nonascii-casefold"] else []))
       | _, _ => (st, "bad-mat")
     else (st, "bad-op")
